@@ -204,16 +204,23 @@ def _rot_setup(ctx, nf, nd, layout="scalar"):
     return f, d, E
 
 
-def case_rotation(ctx, nf, nd, k, mirror=False):
+def case_rotation(ctx, nf, nd, k, mirror=False, relabel=False):
     """2D spectrum on a uniform grid rotated by k bins (or mirrored): per-frequency and band-averaged first moments
-    rotate as vectors, second moments by twice the angle; e, moments, Hm0, periods, spread, peak index unchanged"""
+    rotate as vectors, second moments by twice the angle; e, moments, Hm0, periods, spread, peak index unchanged.
+    relabel=True expresses the rotation by shifting the direction coordinate of every bin by k bins modulo 360
+    (the values stay where they are), so the rotated object's direction axis crosses the 0/360 seam mid-array"""
     f, d, E = _rot_setup(ctx, nf, nd)
+    dr = d
     if mirror:
         Er = E[:, [(-j) % nd for j in range(nd)]]
+    elif relabel:
+        Er = E
+        g = [Fraction(360 * ((j + k) % nd), nd) for j in range(nd)]
+        dr = C.obj([core.SR(x) for x in g]) if ctx.mode == "sym" else np.array([float(x) for x in g])
     else:
         Er = np.roll(E, k, axis=-1)
     s = C.make_2d(ctx, f, d, E, "scalar")
-    r = C.make_2d(ctx, f, d, Er.copy(), "scalar")
+    r = C.make_2d(ctx, f, dr, Er.copy(), "scalar")
     fmin, fmax = C.band(ctx, "band")
     ang = 2 * np.pi * k / nd
     if ctx.mode == "sym":
@@ -296,4 +303,7 @@ def cases(tier):
                 opts=dict(trig_mode="algebraic", weight=nd * nf, check_timeout_ms=60000))
         add("case_rotation", f"mirror_nd{nd}_nf{nf}", nf=nf, nd=nd, k=0, mirror=True,
             opts=dict(trig_mode="algebraic", weight=nd * nf, check_timeout_ms=60000))
+        for k in ([1, nd - 1] if q else range(1, nd)):
+            add("case_rotation", f"relabel_nd{nd}_nf{nf}_k{k}", nf=nf, nd=nd, k=k, relabel=True,
+                opts=dict(trig_mode="algebraic", weight=nd * nf, check_timeout_ms=60000))
     return cs
